@@ -42,7 +42,7 @@ VALUES = [None, True, 1, 1.0, "1", [], {}, [1], [True], {"a": 1}, {"a": True}, "
 
 
 def plan(tier, seed):
-    specs = [{"kind": "single", "doc": i, "ops": ops} for i in range(len(DOCS)) for ops in (["add", "replace", "test", "remove"], ["move"], ["copy"])]
+    specs = [{"kind": "flags"}] + [{"kind": "single", "doc": i, "ops": ops} for i in range(len(DOCS)) for ops in (["add", "replace", "test", "remove"], ["move"], ["copy"])]
     for _ in range(6 if tier == "quick" else 20):
         specs.append({"kind": "sequences", "n": 2500 if tier == "quick" else 60000})
     return specs
@@ -195,6 +195,11 @@ def gen_sequence(r, doc):
 
 def run(spec, ctx):
     r = ctx.rng
+    if spec["kind"] == "flags":
+        from rt import flag_history
+
+        flag_history.run(ctx)
+        return
     if spec["kind"] == "single":
         doc = DOCS[spec["doc"]]
         ps = paths_for(doc)
@@ -242,5 +247,10 @@ def finalize(m, tier):
 
 
 def replay(case, ctx):
+    if case.get("flags"):
+        from rt import flag_history
+
+        flag_history.run(ctx)
+        return
     ctx._force_builder = bool(case.get("builder_from_parts"))
     check(ctx, case["doc"], case["ops"], case.get("class", "replay"))
